@@ -518,7 +518,7 @@ Path coverage: run_models raises a machinery error if any of 26 expected path la
 Drift: the model instantiated at radix 2^7 (TraceBigIntImpl.tla) reproduced quotient, remainder and the path
 labels printed by the BIGINT_DO_DEBUG build on 1700 of 1700 recorded divide events.
 
-Candidate patch hooks/fix-c11-bintmod-residue.diff: with it applied (worktree) the quick check reports only
+Candidate patch hooks/candidate-c11-bintmod-residue.diff: with it applied (worktree) the quick check reports only
 the bintShiftRem finding; the three BIntMod/BIntPowerMod findings disappear and nothing else changes.
 Unchanged tree: held (exit 0, four KNOWN-FINDING lines) with VERIF_SEED=20261004 and VERIF_SEED=777.
 """
